@@ -15,7 +15,7 @@ PROPS['C07'] = dict(
         dict(name='tick-exact', variant='asan', harness='c07_seq.cpp', quick=3000, thorough=60000),
         dict(name='tick-fixed', variant='asan', harness='c07_seq.cpp', quick=1500, thorough=30000),
         dict(name='audio', variant='asan', harness='c07_seq.cpp', quick=600, thorough=10000, budget=60),
-        dict(name='memcheck', variant='plain-d', harness='c07_seq.cpp', quick=1000, thorough=20000, budget=1200, wall=3000, **{'as': 'tick-exact'},
+        dict(name='memcheck', variant='plain-d', harness='c07_seq.cpp', quick=1000, thorough=20000, budget=150, wall=2400, **{'as': 'tick-exact'},
              wrapper=['valgrind', '-q', '--error-exitcode=79', '--exit-on-first-error=yes', '--track-origins=no', '--leak-check=no']),
     ],
 )
